@@ -164,6 +164,14 @@ type pool struct {
 	mp      mempool.Mempool
 	v1      *mempoolv1.TxMempool
 	timeout bool
+	async   *asyncConn // v0 over the asynchronous FIFO client (cfg async=1)
+
+	// v1 logical time (cfg ttldur=D > 0): TTLDuration = D hours; an op's now=<t> is mapped onto the
+	// wall clock the code reads by rewriting the pooled entries' timestamps (hook VerifSetTimestamp)
+	// to base + t*hour, with base chosen at every Update so that time.Now() = base + now*hour - 30min.
+	ttlD int64
+	ts   map[string]int64
+	base time.Time
 
 	// v0 only: the installed post-check is always postHook = (optional start barrier for ccheck) +
 	// the PostCheckMaxGas of the last update op. v0 runs the post-check in the caller's goroutine
@@ -175,6 +183,80 @@ type pool struct {
 	barGot    int
 	barCh     chan struct{}
 	barSpin   int32
+}
+
+// asyncConn (v0, cfg async=1): an ABCI mempool connection with the discipline of the socket client
+// (abci/client/socket_client.go): CheckTxAsync only queues; a response is produced and handled
+// later (deliver): Response set, global callback, then the request's own callback; FlushSync
+// handles everything pending.
+type asyncConn struct {
+	app     *scriptApp
+	mu      sync.Mutex
+	cb      abcicli.Callback
+	queue   []*abcicli.ReqRes
+	verdict []verdict // first-time verdict captured when the request was sent
+}
+
+func (c *asyncConn) SetResponseCallback(cb abcicli.Callback) { c.cb = cb }
+func (c *asyncConn) Error() error                            { return nil }
+func (c *asyncConn) FlushAsync() *abcicli.ReqRes {
+	return abcicli.NewReqRes(abci.ToRequestFlush())
+}
+func (c *asyncConn) FlushSync() error {
+	for c.deliver() {
+	}
+	return nil
+}
+func (c *asyncConn) CheckTxSync(req abci.RequestCheckTx) (*abci.ResponseCheckTx, error) {
+	r := c.app.CheckTx(req)
+	return &r, nil
+}
+func (c *asyncConn) CheckTxAsync(req abci.RequestCheckTx) *abcicli.ReqRes {
+	rr := abcicli.NewReqRes(abci.ToRequestCheckTx(req))
+	c.mu.Lock()
+	c.app.mu.Lock()
+	v := c.app.first
+	c.app.mu.Unlock()
+	c.queue = append(c.queue, rr)
+	c.verdict = append(c.verdict, v)
+	c.mu.Unlock()
+	return rr
+}
+func (c *asyncConn) pending() (n, rechecks int) {
+	c.mu.Lock()
+	defer c.mu.Unlock()
+	for _, rr := range c.queue {
+		if rr.Request.GetCheckTx().Type == abci.CheckTxType_Recheck {
+			rechecks++
+		}
+	}
+	return len(c.queue), rechecks
+}
+
+// deliver handles the oldest pending response; false when nothing is pending
+func (c *asyncConn) deliver() bool {
+	c.mu.Lock()
+	if len(c.queue) == 0 {
+		c.mu.Unlock()
+		return false
+	}
+	rr, v := c.queue[0], c.verdict[0]
+	c.queue, c.verdict = c.queue[1:], c.verdict[1:]
+	c.mu.Unlock()
+	req := rr.Request.GetCheckTx()
+	if req.Type != abci.CheckTxType_Recheck {
+		c.app.mu.Lock()
+		c.app.first = v
+		c.app.mu.Unlock()
+	}
+	res := abci.ToResponseCheckTx(c.app.CheckTx(*req))
+	rr.Response = res
+	rr.Done()
+	if c.cb != nil {
+		c.cb(rr.Request, res)
+	}
+	rr.InvokeCallback()
+	return true
 }
 
 // gatedConn (v1): v1's CheckTx calls the application (CheckTxSync) after its read-locked first
@@ -265,6 +347,25 @@ func newPool(m map[string]string) (*pool, bool) {
 	if ver == 1 {
 		conn = &gatedConn{AppConnMempool: conn, p: p}
 	}
+	if d, has := m["ttldur"]; has {
+		v, ok := atoi(d)
+		if !ok || v < 0 || ver != 1 || strings.HasPrefix(d, "+") || strings.HasPrefix(d, "-") {
+			return nil, false
+		}
+		p.ttlD, p.ts, p.base = v, map[string]int64{}, time.Now()
+		if v > 0 {
+			cfg.TTLDuration = time.Duration(v) * time.Hour
+		}
+	}
+	if a, has := m["async"]; has {
+		if (a != "0" && a != "1") || (a == "1" && ver != 0) {
+			return nil, false
+		}
+		if a == "1" {
+			p.async = &asyncConn{app: app}
+			conn = p.async
+		}
+	}
 	if ver == 0 {
 		cfg.Version = config.MempoolV0
 		p.mp = mempoolv0.NewCListMempool(cfg, conn, h, mempoolv0.WithPostCheck(p.postHook))
@@ -281,6 +382,10 @@ func (p *pool) obs() string {
 	s := fmt.Sprintf(" | n=%d b=%d all=%s", p.mp.Size(), p.mp.SizeBytes(), hxList(p.mp.ReapMaxTxs(-1)))
 	if p.timeout {
 		s += " recheck-timeout"
+	}
+	if p.async != nil {
+		n, _ := p.async.pending()
+		s += fmt.Sprintf(" q=%d", n)
 	}
 	return s
 }
@@ -395,6 +500,11 @@ func (p *pool) check(m map[string]string) string {
 	p.app.mu.Lock()
 	p.app.first = v
 	p.app.mu.Unlock()
+	now, hasNow := atoi(m["now"])
+	wasIn := false
+	if p.ts != nil && hasNow {
+		_, wasIn = p.v1.VerifPeers(tx)
+	}
 	me := "-"
 	called := false
 	err := p.mp.CheckTx(tx, func(r *abci.Response) {
@@ -403,13 +513,22 @@ func (p *pool) check(m map[string]string) string {
 			me = mempoolErrClass(c.MempoolError)
 		}
 	}, mempool.TxInfo{SenderID: uint16(peer)})
-	if err == nil && !called {
+	if p.ts != nil && hasNow && !wasIn {
+		if _, in := p.v1.VerifPeers(tx); in {
+			p.ts[string(tx)] = now
+			p.v1.VerifSetTimestamp(tx, p.base.Add(time.Duration(now)*time.Hour))
+		}
+	}
+	if err == nil && !called && p.async == nil {
 		return "ok callback-missing" + p.obs()
 	}
-	if p.ver == 1 && err == nil {
-		return "ok me=" + me + p.obs()
+	if p.async != nil {
+		return classify(err) + p.obs()
 	}
-	return classify(err) + p.obs()
+	if p.ver == 1 && err == nil {
+		return "ok me=" + me + " p=" + p.peersOf(tx) + p.obs()
+	}
+	return classify(err) + " p=" + p.peersOf(tx) + p.obs()
 }
 
 // ccheck: K distinct, equally long, never-seen transactions with one and the same verdict are
@@ -489,6 +608,36 @@ func (p *pool) ccheck(m map[string]string) string {
 	return s
 }
 
+// peersOf: the peer ids the pool has recorded for tx (hook accessor), "-" when tx is not pooled
+func (p *pool) peersOf(tx types.Tx) string {
+	var ids []uint16
+	var ok bool
+	if p.v1 != nil {
+		ids, ok = p.v1.VerifPeers(tx)
+	} else {
+		ids, ok = p.mp.(*mempoolv0.CListMempool).VerifSenders(tx)
+	}
+	if !ok {
+		return "-"
+	}
+	s := make([]string, len(ids))
+	for i, id := range ids {
+		s[i] = strconv.Itoa(int(id))
+	}
+	return strings.Join(s, ",")
+}
+
+func (p *pool) deliver(n int) (res string) {
+	defer func() {
+		if r := recover(); r != nil {
+			res = "panic" + p.obs()
+		}
+	}()
+	for i := 0; i < n && p.async.deliver(); i++ {
+	}
+	return "ok" + p.obs()
+}
+
 func (p *pool) update(m map[string]string) string {
 	h, ok := atoi(m["h"])
 	if !ok {
@@ -516,6 +665,7 @@ func (p *pool) update(m map[string]string) string {
 	var pre mempool.PreCheckFunc
 	var post mempool.PostCheckFunc
 	var postGas *int64
+	var newInner mempool.PostCheckFunc
 	switch m["pre"] {
 	case "-":
 	default:
@@ -535,12 +685,28 @@ func (p *pool) update(m map[string]string) string {
 		post = mempool.PostCheckMaxGas(v)
 		postGas = &v
 		if p.ver == 0 {
-			p.barMu.Lock()
-			p.postInner = post
-			p.barMu.Unlock()
+			newInner = post
 			post = p.postHook
 		}
 	}
+
+	if p.v1 != nil {
+		select {
+		case <-p.v1.TxsAvailable():
+		default:
+		}
+	}
+	if p.ts != nil {
+		if now, ok := atoi(m["now"]); ok {
+			p.base = time.Now().Add(-time.Duration(now)*time.Hour + 30*time.Minute)
+			for _, tx := range p.mp.ReapMaxTxs(-1) {
+				p.v1.VerifSetTimestamp(tx, p.base.Add(time.Duration(p.ts[string(tx)])*time.Hour))
+			}
+		}
+	}
+	// as state/execution.go Commit: Lock, FlushAppConn, (app commit), Update, Unlock
+	p.mp.Lock()
+	_ = p.mp.FlushAppConn() // answers still pending are given with the previous height's verdicts
 	p.app.mu.Lock()
 	p.app.rv = rv
 	if postGas != nil {
@@ -548,15 +714,11 @@ func (p *pool) update(m map[string]string) string {
 	}
 	p.app.rcCalls, p.app.rcKeep = 0, 0
 	p.app.mu.Unlock()
-	if p.v1 != nil {
-		select {
-		case <-p.v1.TxsAvailable():
-		default:
-		}
+	if newInner != nil {
+		p.barMu.Lock()
+		p.postInner = newInner
+		p.barMu.Unlock()
 	}
-	// as state/execution.go Commit: Lock, FlushAppConn, (app commit), Update, Unlock
-	p.mp.Lock()
-	_ = p.mp.FlushAppConn()
 	err := p.mp.Update(h, txs, resps, pre, post)
 	pending := p.mp.Size()
 	p.mp.Unlock()
@@ -647,6 +809,10 @@ func execOnce(c core.Case) []string {
 			out = append(out, stress(m))
 			continue
 		}
+		if f[0] == "hazard" {
+			out = append(out, hazard(m))
+			continue
+		}
 		if p == nil {
 			out = append(out, "bad-op")
 			continue
@@ -656,10 +822,21 @@ func execOnce(c core.Case) []string {
 			out = append(out, countRes(p.check(m)))
 		case "update":
 			out = append(out, countRes(p.update(m)))
+		case "deliver":
+			n, ok := atoi(m["n"])
+			if !ok || p.async == nil || n < 0 || n > 1000 {
+				out = append(out, "bad-op")
+				continue
+			}
+			out = append(out, p.deliver(int(n)))
 		case "ccheck":
+			if p.async != nil {
+				out = append(out, "bad-op")
+				continue
+			}
 			out = append(out, p.ccheck(m))
 		case "flush":
-			if len(f) != 1 {
+			if len(f) != 1 || p.async != nil {
 				out = append(out, "bad-op")
 				continue
 			}
@@ -846,6 +1023,84 @@ func stress(m map[string]string) string {
 	return "stress-ok"
 }
 
+// hazard: Flush / RemoveTxByKey while the answers of a recheck are still in flight (asynchronous
+// client). Three entries a,b,c are rechecked, c is rejected by the application. The property asks
+// that c is gone and the counters fit the contents when the recheck is over.
+func hazard(m map[string]string) (res string) {
+	kind := m["kind"]
+	if kind == "tie" {
+		return hazardTie()
+	}
+	if kind != "flush" && kind != "remove" && kind != "none" {
+		return "bad-op"
+	}
+	p, ok := newPool(map[string]string{"ver": "0", "size": "10", "maxbytes": "1000", "maxtx": "100", "cache": "10",
+		"keep": "0", "recheck": "1", "ttl": "0", "ttld": "0", "h": "1", "async": "1"})
+	if !ok {
+		return "bad-op"
+	}
+	defer func() {
+		if r := recover(); r != nil {
+			res = "hazard-fail panic"
+		}
+	}()
+	a, b, c := types.Tx{0xa1}, types.Tx{0xb1}, types.Tx{0xc1}
+	p.app.first = verdict{}
+	for _, tx := range []types.Tx{a, b, c} {
+		_ = p.mp.CheckTx(tx, nil, mempool.TxInfo{})
+	}
+	_ = p.async.FlushSync()
+	p.app.rv = map[string]verdict{string(c): {code: 1}}
+	p.mp.Lock()
+	_ = p.mp.FlushAppConn()
+	_ = p.mp.Update(2, nil, nil, nil, nil)
+	p.mp.Unlock()
+	switch kind {
+	case "flush":
+		p.mp.Flush()
+	case "remove":
+		_ = p.mp.RemoveTxByKey(b.Key())
+	}
+	_ = p.async.FlushSync()
+	all := p.mp.ReapMaxTxs(-1)
+	var sum int64
+	for _, t := range all {
+		sum += int64(len(t))
+		if string(t) == string(c) {
+			return "hazard-fail rejected-tx-kept"
+		}
+	}
+	if p.mp.Size() != len(all) || p.mp.SizeBytes() != sum {
+		return "hazard-fail counters-differ-from-contents"
+	}
+	return "hazard-ok"
+}
+
+// hazardTie (v1): two entries with the same priority and (through the timestamp hook) the same
+// arrival timestamp; the reap order is asked for repeatedly.
+func hazardTie() string {
+	p, ok := newPool(map[string]string{"ver": "1", "size": "10", "maxbytes": "1000", "maxtx": "100", "cache": "10",
+		"keep": "0", "recheck": "0", "ttl": "0", "ttld": "0", "h": "1"})
+	if !ok {
+		return "bad-op"
+	}
+	a, b := types.Tx{0xa1}, types.Tx{0xb1}
+	p.app.first = verdict{prio: 1}
+	_ = p.mp.CheckTx(a, nil, mempool.TxInfo{})
+	_ = p.mp.CheckTx(b, nil, mempool.TxInfo{})
+	t := time.Now()
+	p.v1.VerifSetTimestamp(a, t)
+	p.v1.VerifSetTimestamp(b, t)
+	seen := map[string]bool{}
+	for i := 0; i < 64; i++ {
+		seen[hxList(p.mp.ReapMaxTxs(-1))] = true
+	}
+	if len(seen) > 1 {
+		return "hazard-fail order-varies"
+	}
+	return "hazard-ok"
+}
+
 // ---------- property oracle on the implementation's outputs ----------
 
 type obsv struct {
@@ -853,7 +1108,10 @@ type obsv struct {
 	n   int64
 	b   int64
 	all []string // hex tokens ("." = empty tx)
+	q   int64
 	ok  bool
+	// peers recorded for the tx of a check op ("-" not pooled, "?" not reported)
+	peers string
 }
 
 func parseObs(line string) obsv {
@@ -861,7 +1119,11 @@ func parseObs(line string) obsv {
 	if i < 0 {
 		return obsv{res: line}
 	}
-	o := obsv{res: line[:i], ok: true}
+	o := obsv{res: line[:i], ok: true, peers: "?"}
+	if j := strings.Index(o.res, " p="); j >= 0 {
+		o.peers = o.res[j+3:]
+		o.res = o.res[:j]
+	}
 	for _, t := range strings.Fields(line[i+3:]) {
 		switch {
 		case strings.HasPrefix(t, "n="):
@@ -870,6 +1132,8 @@ func parseObs(line string) obsv {
 			o.b, _ = atoi(t[2:])
 		case strings.HasPrefix(t, "all="):
 			o.all = splitList(t[4:])
+		case strings.HasPrefix(t, "q="):
+			o.q, _ = atoi(t[2:])
 		}
 	}
 	return o
@@ -895,6 +1159,15 @@ func protoSize(n int64) int64 {
 		v++
 	}
 	return 1 + v + n
+}
+
+func postPasses(bound, gas string) bool {
+	if bound == "-" {
+		return true
+	}
+	b, _ := atoi(bound)
+	g, _ := atoi(gas)
+	return b == -1 || (g >= 0 && g <= b)
 }
 
 func isPrefix(a, b []string) bool {
@@ -933,6 +1206,19 @@ func oracle(c core.Case, out []string) []core.Finding {
 	arrival := 0
 	var size, maxb, cache int64
 	lastCommittedOK := "" // tx committed with code 0 as the last entry of the previous op's block
+	// asynchronous client: the recheck is over when as many responses as the pool had entries at
+	// Update have been handled
+	async := false
+	var aSnap []string
+	var aRV map[string]verdict
+	aLeft := -1 // recheck answers still to come (-1: no recheck being watched)
+	aResub := map[string]bool{}
+	var qPrev int64
+	cfgPost := "-" // PostCheckMaxGas bound in force
+	// TTL (v1): admission time / height of the pooled txs as the op lines give them
+	admT := map[string]int64{}
+	admH := map[string]int64{}
+	var curH int64
 	for i, op := range c.Ops {
 		if i >= len(out) {
 			break
@@ -942,6 +1228,16 @@ func oracle(c core.Case, out []string) []core.Finding {
 			continue
 		}
 		o := parseObs(out[i])
+		if f[0] == "hazard" && strings.HasPrefix(out[i], "hazard-fail") {
+			m := kv(op)
+			if m["kind"] == "tie" {
+				add("v1.reap.order-undefined-on-equal-timestamps", "two entries with equal priority and equal arrival timestamp are reaped in varying order: "+out[i])
+				continue
+			}
+			add("v0.async."+m["kind"]+"-during-recheck."+strings.TrimPrefix(out[i], "hazard-fail "),
+				"v0 over an asynchronous client: "+m["kind"]+" while recheck answers are in flight: "+out[i])
+			continue
+		}
 		if f[0] == "stress" && strings.HasPrefix(out[i], "stress-fail") {
 			m := kv(op)
 			add("v"+m["ver"]+".concurrent."+strings.TrimPrefix(out[i], "stress-fail "),
@@ -977,6 +1273,9 @@ func oracle(c core.Case, out []string) []core.Finding {
 			continue
 		}
 		m := kv(op)
+		if o.res == "panic" {
+			add(ver+".async.panic", "the pool panicked while a response was handled (op "+f[0]+")")
+		}
 		if strings.Contains(out[i], "recheck-timeout") {
 			add(ver+".recheck.never-settles", "after Update the recheck did not reach a settled state within 3 s")
 		}
@@ -986,6 +1285,11 @@ func oracle(c core.Case, out []string) []core.Finding {
 			size, _ = atoi(m["size"])
 			maxb, _ = atoi(m["maxbytes"])
 			cache, _ = atoi(m["cache"])
+			async = m["async"] == "1"
+			cfgPost = "-"
+			admT, admH = map[string]int64{}, map[string]int64{}
+			curH, _ = atoi(m["h"])
+			aLeft, qPrev = -1, 0
 			prev = nil
 			info = map[string]meta{}
 			lastCommittedOK = ""
@@ -1015,7 +1319,29 @@ func oracle(c core.Case, out []string) []core.Finding {
 		}
 		nextCommitted := ""
 		switch f[0] {
+		case "deliver":
+			handled := int(qPrev - o.q)
+			if aLeft > 0 && handled > 0 {
+				aLeft -= handled
+				if aLeft <= 0 {
+					aLeft = -1
+					for _, t := range o.all {
+						if contains(aSnap, t) && !aResub[t] && aRV[string(unhx(t))].code != 0 {
+							add("v0.async.recheck.keeps-rejected-tx", fmt.Sprintf("all recheck answers have been handled and tx %s, answered code %d, is still in the pool", t, aRV[string(unhx(t))].code))
+						}
+					}
+				}
+			}
 		case "check":
+			if async {
+				aResub[normTok(m["tx"])] = true
+				if o.res == "in-cache" || o.res == "full" || o.res == "too-large" || o.res == "pre" || o.res == "ok" {
+					if strings.Join(prev, ",") != strings.Join(o.all, ",") {
+						add("v0.async.check.changes-pool-before-answer", "CheckTx changed the pool before its answer was handled")
+					}
+				}
+				break
+			}
 			tx := normTok(m["tx"])
 			wasIn := contains(prev, tx)
 			isIn := contains(o.all, tx)
@@ -1033,6 +1359,11 @@ func oracle(c core.Case, out []string) []core.Finding {
 				add(ver+".check.readmits-just-committed-tx", "tx "+tx+" committed (code 0) by the previous Update and still remembered was admitted again")
 			}
 			code, _ := atoi(m["code"])
+			if o.peers != "?" && isIn && (o.res == "in-cache" || (strings.HasPrefix(o.res, "ok") && code == 0 && !strings.Contains(o.res, "me=post"))) {
+				if !contains(strings.Split(o.peers, ","), m["peer"]) && postPasses(cfgPost, m["gas"]) {
+					add(ver+".senders.peer-not-recorded", fmt.Sprintf("tx %s is in the pool after CheckTx from peer %s but the peer is not among its recorded senders (%s)", tx, m["peer"], o.peers))
+				}
+			}
 			if code != 0 && isIn && !wasIn {
 				add(ver+".check.admits-rejected-tx", "tx "+tx+" rejected by the application (code!=0) entered the pool")
 			}
@@ -1048,6 +1379,10 @@ func oracle(c core.Case, out []string) []core.Finding {
 				}
 				arrival++
 				info[tx] = meta{gas: gas, prio: prio, arrival: arrival}
+				admH[tx] = curH
+				if t, ok := atoi(m["now"]); ok {
+					admT[tx] = t
+				}
 			} else if ver == "v0" || !isIn || wasIn {
 				for _, t := range prev {
 					if !contains(o.all, t) {
@@ -1056,6 +1391,26 @@ func oracle(c core.Case, out []string) []core.Finding {
 				}
 			}
 		case "update":
+			if m["post"] != "-" && m["post"] != "" {
+				cfgPost = m["post"]
+			}
+			if ver == "v1" {
+				uh, _ := atoi(m["h"])
+				curH = uh
+				ttl, _ := atoi(cfg["ttl"])
+				d, _ := atoi(cfg["ttldur"])
+				now, hasNow := atoi(m["now"])
+				for _, t := range o.all {
+					if ttl > 0 && uh-admH[t] > ttl {
+						add("v1.ttl.expired-by-blocks-kept", fmt.Sprintf("tx %s admitted at height %d is still pooled after Update(%d) with TTLNumBlocks=%d", t, admH[t], uh, ttl))
+					}
+					if at, known := admT[t]; d > 0 && hasNow && known && now-at > d {
+						add("v1.ttl.expired-by-duration-kept", fmt.Sprintf("tx %s admitted at time %d is still pooled after Update at time %d with TTLDuration=%d", t, at, now, d))
+					}
+				}
+			} else if uh, ok := atoi(m["h"]); ok {
+				curH = uh
+			}
 			txl := splitList(m["txs"])
 			for k, t := range txl {
 				if contains(o.all, normTok(t)) {
@@ -1066,6 +1421,16 @@ func oracle(c core.Case, out []string) []core.Finding {
 			cl := splitList(m["codes"])
 			if len(txl) > 0 && len(cl) == len(txl) && cl[len(cl)-1] == "0" {
 				nextCommitted = normTok(txl[len(txl)-1])
+			}
+			if async {
+				// pending first-time answers are handled by FlushAppConn before Update; the recheck
+				// answers are handled later
+				aSnap, aLeft, aResub = o.all, len(o.all), map[string]bool{}
+				aRV, _ = parseRV(m["rv"])
+				if cfg["recheck"] != "1" || o.q == 0 {
+					aLeft = -1
+				}
+				break
 			}
 			for _, t := range o.all {
 				if !contains(prev, t) {
@@ -1128,6 +1493,7 @@ func oracle(c core.Case, out []string) []core.Finding {
 		}
 		lastCommittedOK = nextCommitted
 		prev = o.all
+		qPrev = o.q
 	}
 	// one finding per fingerprint per case
 	uniq := map[string]bool{}
@@ -1524,6 +1890,81 @@ func genVarint(r *rand.Rand, emit func(core.Case), n, ver int) {
 	}
 }
 
+// genAsync: v0 over the asynchronous FIFO client: submissions, response deliveries (0..3 at a time)
+// and block updates with recheck interleaved freely, so recheck answers are handled while new
+// submissions queue up behind them; reaps in between.
+func genAsync(r *rand.Rand, emit func(core.Case), n int) {
+	for c := 0; c < n; c++ {
+		cfg, size, _ := genCfg(r, 0)
+		cfg = strings.Replace(cfg, "recheck=0", "recheck=1", 1) + " async=1"
+		ops := []string{cfg}
+		k := 3 + r.Intn(6)
+		h := 1
+		var known []string
+		for i := 0; i < 10+r.Intn(30); i++ {
+			switch x := r.Intn(20); {
+			case x < 9:
+				t := pickTx(r, k)
+				if !contains(known, t) {
+					known = append(known, t)
+				}
+				ops = append(ops, genCheck(r, t, 0))
+			case x < 14:
+				ops = append(ops, fmt.Sprintf("deliver n=%d", r.Intn(4)))
+			case x < 17:
+				h++
+				ops = append(ops, genUpdate(r, h, k, known))
+			case x < 18:
+				ops = append(ops, fmt.Sprintf("reapn n=%d", r.Intn(size+3)-1))
+			case x < 19:
+				ops = append(ops, "deliver n=1000")
+			default:
+				ops = append(ops, fmt.Sprintf("reap bytes=%d gas=%d", r.Intn(30)-1, r.Intn(8)-1))
+			}
+		}
+		ops = append(ops, "deliver n=1000")
+		emit(core.Case{Kind: "async-v0", Ops: ops})
+	}
+	for _, k := range []string{"none", "flush", "remove", "tie"} {
+		emit(core.Case{Kind: "async-hazard", Ops: []string{"hazard kind=" + k}})
+	}
+}
+
+// genTTL (v1): logical time on the op lines (now=), TTLDuration = D units and/or TTLNumBlocks;
+// submissions at strictly increasing times, updates at later times such that entries are younger
+// than, exactly at, and older than the TTL.
+func genTTL(r *rand.Rand, emit func(core.Case), n int) {
+	for c := 0; c < n; c++ {
+		d := 1 + r.Intn(5)
+		ttl := 0
+		if r.Intn(2) == 0 {
+			ttl = 1 + r.Intn(3)
+		}
+		ops := []string{fmt.Sprintf("cfg ver=1 size=%d maxbytes=1000 maxtx=1000 cache=%d keep=%d recheck=%d ttl=%d ttld=0 h=1 ttldur=%d",
+			3+r.Intn(5), r.Intn(8), r.Intn(2), r.Intn(2), ttl, d)}
+		now, h := 0, 1
+		var known []string
+		for i := 0; i < 8+r.Intn(20); i++ {
+			if r.Intn(3) != 0 {
+				now += 1 + r.Intn(3)
+				t := pickTx(r, 8)
+				if !contains(known, t) {
+					known = append(known, t)
+				}
+				ops = append(ops, genCheck(r, t, 1)+fmt.Sprintf(" now=%d", now))
+			} else {
+				now += r.Intn(d + 2)
+				h++
+				ops = append(ops, genUpdate(r, h, 8, known)+fmt.Sprintf(" now=%d", now))
+			}
+			if r.Intn(6) == 0 {
+				ops = append(ops, "reap bytes=-1 gas=-1")
+			}
+		}
+		emit(core.Case{Kind: "ttl-v1", Ops: ops})
+	}
+}
+
 // genHostile: malformed / out-of-contract op lines (negative limits, unknown ops, bad hex, ops before cfg).
 func genHostile(r *rand.Rand, emit func(core.Case), n int) {
 	bad := []string{
@@ -1576,6 +2017,8 @@ func main() {
 			genConcurrent(r, emit, n/8, 1)
 			genConcurrentSame(r, emit, n/8, 0)
 			genConcurrentSame(r, emit, n/8, 1)
+			genAsync(r, emit, n/2)
+			genTTL(r, emit, n/2)
 			genVarint(r, emit, n/10, 0)
 			genVarint(r, emit, n/10, 1)
 			if tier == "thorough" {
